@@ -54,6 +54,8 @@ FLOORS = {
                                                    "ruledb.has_spec_compared_iterative": 4000,
                                                    "ruledb.smallest_compared": 2000}},
 }
+# W5: the repository's own test suite runs once under these ambient monitors (thorough tier)
+W5_MONITORS = ['ruledb']
 CASE_TIMEOUT = {"quick": 60, "thorough": 120}
 SIZES = {"quick": (700, 350, 250), "thorough": (14000, 7000, 5000)}
 
